@@ -119,8 +119,9 @@ def main(argv=None):
     warnings.filterwarnings("ignore", category=RuntimeWarning)
     logging.getLogger("pyhf").setLevel(logging.CRITICAL)
     import pyhf
-    if not pyhf.__file__.startswith("/repo/src"):
-        print(f"HARNESS-ERROR pyhf imported from {pyhf.__file__}, expected /repo/src")
+    src = os.environ.get("VERIF_PYHF_SRC", "/repo/src").rstrip("/")      # development aid only; the registered commands leave it unset
+    if not pyhf.__file__.startswith(src):
+        print(f"HARNESS-ERROR pyhf imported from {pyhf.__file__}, expected {src}")
         return 2
 
     if a.replay:
